@@ -19,10 +19,11 @@ objects of libarchive, regenerated on every run into lean/LA/Gen/Statics.lean.
 
 Fails loudly (ExtractError) when readelf output cannot be parsed.
 """
-import glob, json, os, re, subprocess
+import glob, json, os, re, subprocess, time
 from . import core
 
 FLAVOUR = 'plain'
+LAST_RUN = None      # set when gen_Statics completed in this process (tools/props/C13.py refuses to run without it)
 
 # libc entry points whose effect or result is process-wide state
 PROCESS_WIDE = {
@@ -379,4 +380,6 @@ def gen_Statics():
     body += '/-- tools/statics_classified.json: (object file, libc function, class). -/\n'
     body += 'def processWideClassified : List (String × String × String) := ' + lst(pwc, lambda r: f'({lean_str(r[0])}, {lean_str(r[1])}, {lean_str(r[2])})') + '\n'
     write('Statics', body, f'readelf over .build/{FLAVOUR} objects, libarchive/*.[ch], tools/statics_classified.json')
+    global LAST_RUN
+    LAST_RUN = time.time()
     return {'elf': sorted(set(elf)), 'alt': sorted(set(alt)), 'src': sorted(set(src)), 'pw': sorted(set(pw)), 'mutex': mfacts}
